@@ -6,7 +6,7 @@ CLAIMED = {
  "C01": ("CP1 CP3 CP6 CP9 CP10 CP12 TK2", "edge-dominance + exhaustive CFG path search + backward slicing over go/ssa (run loop cache events)",
          "structural necessary conditions on every path of the run loop: skip only under digest equality with the loaded cache entry of the same task; no path from a successful run leaves a stale digest on disk; every declared file input reaches the hasher (and every string dependency of the syntax tree reaches one of the two input fields); the old digest is never re-instated after a success; the cache persists exactly its own map; glob expansion precedes the loop",
          "not covered: change-sensitivity of the digest (C04), correctness of glob expansion (C05), races between hashing and running. Trusted: go/ssa + VTA of x/tools v0.29.0, encoding/json and os.WriteFile contracts, the effect-based recognition of the cache API"),
- "C02": ("CP2 CP3L CP5 CP11 AB1", "control-dependence + backward slice non-interference analysis and must-pass-through path search over go/ssa",
+ "C02": ("CP2 CP3L CP5 CP11 AB1 AB2", "control-dependence + backward slice non-interference analysis and must-pass-through path search over go/ssa",
          "no decision of one loop iteration (run, skip, record, persist) reads loop-carried state of other tasks; every successful run is recorded and persisted on all paths; an empty input list can never be skipped",
          "not covered: that equal inputs give equal digests (C04) and the value-level outcome of the comparison. Same trusted base as C01"),
  "C03": ("GR1-GR8 ST7 TK1", "call-graph cycle / work-list detection, argument slicing, edge-dominance and per-iteration path enumeration over go/ssa",
@@ -15,10 +15,10 @@ CLAIMED = {
  "C04": ("HS1-HS5", "goroutine-topology recovery (alias propagation through closures/parameters), dominance of the sort over every consumer, origin tracing, path enumeration and interval evaluation over go/ssa",
          "the only arrival-ordered slice reaching the digest is sorted with a whole-element comparator before use; each item is sha256 of the whole file opened on the job path plus that unchanged path; items are never folded arithmetically; one item per non-directory job; every element of the list becomes a job; at least one worker for a non-empty list",
          "not covered: injectivity of hash||path framing, SHA-256 collisions, duplicate paths (value-level)"),
- "C05": ("GL1-GL4", "edge-dominance and path enumeration in the GlobWalk callback + interprocedural slicing of fsys/pattern/keys over go/ssa",
+ "C05": ("GL1-GL4 TK2 AB2", "edge-dominance and path enumeration in the GlobWalk callback + interprocedural slicing of fsys/pattern/keys over go/ssa",
          "the GlobWalk callback never returns SkipDir/SkipAll; exactly one append per non-hidden nil return; walked FS is os.DirFS(SpokFile.Dir), pattern unchanged, Globs keyed by the expanded pattern; nothing but loop/err/already-expanded(miss, non-empty hit) guards the expansion",
          "not covered: the doublestar matcher, the exact hidden-name predicate, symlinks"),
- "C08": ("PR1 PR2 PR3 LX1 LX2", "typed-syntax-tree object identity checks + lexer state-function graph reachability + loop progress path search",
+ "C08": ("PR1-PR4 LX1 LX2 FM6", "typed-syntax-tree object identity checks + lexer state-function graph reachability + loop progress path search",
          "every ERROR arm reports the tested token's own Value; every illegalToken quotes the line of the token it cites; the scan ends only via an ERROR token or emit(EOF); a task body cannot reach EOF without RBRACE or error; every parser token loop advances and leaves on ERROR. Decides these clauses only, not totality/no-panic over all byte strings",
          "not covered: absence of panics and cursor arithmetic over all inputs (declined, value-level); line numbers within range"),
  "C09": ("SH1 SH2 RT1 RT2 RT3 RT4 GR6 CP8", "error-flow discipline check (non-nil edge must end in non-nil error returns) along the whole call chain + loop/guard shape analysis over go/ssa",
@@ -36,10 +36,10 @@ CLAIMED = {
  "C14": ("CP1f CP3f CP10", "edge-dominance of force==false over every skip + force-restricted CFG path search over go/ssa",
          "no 'skipped' store is reachable with force set; on the force==true paths a successful run never leaves a stale digest on disk; the force parameter is fed from Options.Force",
          "not covered: flag parsing inside the CLI library"),
- "C15": ("FM1-FM6", "may-be-empty string analysis of every String() return + edge-dominance of the docstring guard + per-iteration path enumeration over go/ssa",
+ "C15": ("FM1-FM7", "may-be-empty string analysis of every String() return + edge-dominance of the docstring guard + per-iteration path enumeration over go/ssa",
          "no appended node type can print as the empty string; Tree.Write prints every node once in order; a comment becomes a docstring only when the very next token is the task keyword and never across iterations; Task.String prints it before the keyword; one Append per parse-loop iteration; a parsed comment is never dropped on a non-failing path; the parser is handed the file as read",
          "not covered: preservation of comment text and order (value-level)"),
- "C17": ("FD1 FD3 FD4 FD5 FD6", "loop exit-test classification by backward slicing (directory-dependent, content-independent, dominates the back edge) over go/ssa",
+ "C17": ("FD1 FD3 FD4 FD5 FD6 AB2", "loop exit-test classification by backward slicing (directory-dependent, content-independent, dominates the back edge) over go/ssa",
          "the upward walk has a content-independent exit test on every iteration and one that fires at the root; no negative answer from inside the entries loop; the hit is guarded by Name()==NAME and !IsDir() of the same entry; the stop comparison is on the listed directory after its entries were read; the CLI passes cwd/home",
          "not covered: symlinks, permission errors other than being reported; filepath.Dir fixed point at the root is a library fact"),
  "C18": ("CC1-CC10", "concurrency-shape analysis: channel/WaitGroup alias propagation, nil-dereference-after-error check, send-on-all-paths search, close/Wait ordering, drain-loop exits, shared-memory ownership, interval bound",
